@@ -2,6 +2,7 @@
 import Props.C01
 import Props.C01_attrs
 import Props.C01_ext
+import Props.C01_spelling
 #print axioms SpyneModel.Props.C01.nil_true_is_nil
 #print axioms SpyneModel.Props.C01.nil_false_carries_value
 #print axioms SpyneModel.Props.C01.xml_roundtrip
@@ -36,3 +37,10 @@ import Props.C01_ext
 #print axioms SpyneModel.Props.C01ext.multiple_returns_in_order
 #print axioms SpyneModel.Props.C01ext.client_packs_every_keyword
 #print axioms SpyneModel.Props.C01ext.client_call_fidelity
+#print axioms SpyneModel.Props.C01spelling.server_sees_denoted_tree
+#print axioms SpyneModel.Props.C01spelling.decode_of_any_spelling
+#print axioms SpyneModel.Props.C01spelling.same_denotation_same_outcome
+#print axioms SpyneModel.Props.C01spelling.comments_and_pis_denote_nothing
+#print axioms SpyneModel.Props.C01spelling.text_pieces_and_cdata_denote_the_text
+#print axioms SpyneModel.Props.C01spelling.respelled_child
+#print axioms SpyneModel.Props.C01spelling.chunked_bytes_written_as_concatenation
